@@ -107,7 +107,7 @@ func (u *Unit) callStatic(st *State, fr *Frame, in *ssa.Call, fn *ssa.Function, 
 		}()
 		return []Outcome{{st, u.recCall(st, fn, args)}}, true
 	}
-	if ct := u.eng.contracts[key]; ct != nil && u.specMode == 0 && !u.bounded && !ct.Inline && fn != u.fn {
+	if ct := u.eng.contracts[key]; ct != nil && u.specMode == 0 && !u.bounded && !ct.Inline {
 		return u.callByContract(st, fr, in, fn, ct, args)
 	}
 	if fn == u.fn && u.specMode == 0 {
@@ -602,6 +602,7 @@ func (u *Unit) callByContract(st *State, fr *Frame, in *ssa.Call, fn *ssa.Functi
 		site = u.where(fr, in)
 	}
 	entry := st.clone()
+	st.trace = append(st.trace, CallRec{nil, args, nil}) // ghost call trace (see traceBytes)
 	// requires
 	for _, cl := range ct.Requires {
 		if !cl.visible(u.prop) {
